@@ -334,6 +334,13 @@ impl Kernel {
         st.threads.iter().any(|t| t.name == name && t.status != Status::Finished)
     }
 
+    /// "Once faults stop": no injected fault or crash fires after this call.
+    pub fn stop_faults(&self) {
+        let mut st = self.lock();
+        st.faults.clear();
+        st.crash = None;
+    }
+
     pub fn any_fault_or_crash_fired(&self) -> bool {
         let st = self.lock();
         !st.faults_fired.is_empty() || st.crash_fired
